@@ -53,12 +53,44 @@ Proof. intros T c x H. rewrite instance_lookup_correct. now apply instance_slot_
 Print Assumptions C06_instance_slot_complete.
 
 (* The property's domain, as a decidable predicate (also the generator's filter): when no ancestor
-   is reached twice the reference MRO is the depth-first left-to-right walk itself.  That this is
-   the order CPython computes on the domain is checked against type.__mro__ by correspondence (R). *)
+   is reached twice, the reference MRO (first occurrences of the depth-first left-to-right walk) is
+   the walk itself, and it IS the C3 linearisation CPython computes (typeobject.c), for hierarchies
+   of any depth and width.  (That c3_mro/mro are CPython's order is also checked against
+   type.__mro__ by correspondence (R); an `object` written explicitly must come last: object_last.) *)
 Theorem C06_mro_domain : forall (T : table) (c : cid),
   no_repeated_ancestor T c = true -> mro T c = dfs T c.
 Proof. exact mro_domain. Qed.
 Print Assumptions C06_mro_domain.
+
+Theorem C06_mro_is_c3 : forall (T : table) (c : cid),
+  wf T = true -> c < length T -> no_repeated_ancestor T c = true ->
+  c3_mro T c = C3Ok (mro T c).
+Proof.
+  intros T c W Hc H. rewrite (mro_domain T c H). apply c3_is_dfs; [exact W | exact Hc |].
+  now apply nodupb_NoDup.
+Qed.
+Print Assumptions C06_mro_is_c3.
+
+(* the restriction is needed: with a repeated ancestor (diamond 3(1,2), 1(0), 2(0)) C3 differs *)
+Example C06_domain_needed :
+  let D := [mkCls [] [] []; mkCls [0] [] []; mkCls [0] [] []; mkCls [1; 2] [] []] in
+  no_repeated_ancestor D 3 = false /\ mro D 3 = [3; 1; 0; 2] /\ c3_mro D 3 = C3Ok [3; 1; 2; 0].
+Proof. vm_compute. repeat split; reflexivity. Qed.
+
+(* `cls` inside a classmethod is the class: supp (after fix F31) answers cls.attr from the class
+   table (C06_class_lookup).  Answering it from the instance table, as the pinned tree does, agrees
+   exactly when no class of the MRO assigns the name through self, and is wrong otherwise. *)
+Theorem C06_cls_form_agrees : forall (T : table) (c : cid) (x : name),
+  find (self_assigns T x) (mro T c) = None ->
+  get x (inst_attrs T c) = option_map ClsAt (py_class_lookup T c x).
+Proof. exact cls_form_agrees. Qed.
+Print Assumptions C06_cls_form_agrees.
+
+Theorem C06_cls_form_refuted : exists (T : table) (c : cid) (x : name),
+  in_domain T c = true /\ wf T = true /\
+  get x (inst_attrs T c) <> option_map ClsAt (py_class_lookup T c x).
+Proof. exists f31_table, 1, 1%N. vm_compute. repeat split; discriminate. Qed.
+Print Assumptions C06_cls_form_refuted.
 
 (* Defect F5 (pinned tree): InstanceValue._attrs applied the base-INSTANCE tables, which contain
    the base CLASS tables, over the subclass's class table.  Witness:
